@@ -1,10 +1,12 @@
 """C18 -- compiler registry and pipeline context stay coherent over any call history."""
 from ..core import Ctx, Ob, PropSpec
-from ..rules import r6
+from ..rules import r6, r6e
 
 
 def run(ctx: Ctx) -> list[Ob]:
-    return r6.r6a(ctx) + r6.r6b(ctx) + r6.r6c(ctx) + r6.r6d(ctx)
+    obs = r6.r6a(ctx) + r6.r6b(ctx) + r6.r6c(ctx) + r6.r6d(ctx)
+    obs += r6e.r6e(ctx)
+    return obs
 
 
 SPEC = PropSpec(
@@ -20,9 +22,9 @@ SPEC = PropSpec(
         "symbolic circuit. R6c: BiMap.add writes both directions after asserting both absent, getters read their own side, "
         "CompiledCircuitsMap / AbstractCompiler delegate side-consistently. R6d: every PipelineContext operator checks has_symbolic "
         "for each operand, maps it, calls the same-named SF operator with its own registry and returns self.compile(result); every "
-        "module-level function resolves the active context and delegates with all its arguments."
+        "module-level function resolves the active context and delegates with all its arguments. R6e: no function that constructs and returns an object (in particular OperatorRegistry.from_default_rules, which gives each pipeline context its own registry and token slot) is memoised with functools.cache / lru_cache."
     ),
     not_decided="re-entrancy of one context object (excluded by the property); thread/async interleavings of ContextVar (Python semantics).",
     run=run,
-    floors={"R6a": 8, "R6b": 10, "R6c": 14, "R6d": 30},
+    floors={"R6e": 50, "R6a": 8, "R6b": 10, "R6c": 14, "R6d": 30},
 )
